@@ -675,11 +675,20 @@ int vnacal_save(vnacal_t *vcp, const char *pathname)
 		vcp->vc_filename, strerror(errno));
 	return -1;
     }
-    free((void *)vcp->vc_filename);
-    if ((vcp->vc_filename = strdup(pathname)) == NULL) {
-	_vnacal_error(vcp, VNAERR_SYSTEM,
-		"strdup: %s", strerror(errno));
-	goto error;
+    /*
+     * Copy the new name before freeing the old one: the caller may have
+     * passed the string returned by vnacal_get_filename.
+     */
+    {
+	char *filename;
+
+	if ((filename = strdup(pathname)) == NULL) {
+	    _vnacal_error(vcp, VNAERR_SYSTEM,
+		    "strdup: %s", strerror(errno));
+	    goto error;
+	}
+	free((void *)vcp->vc_filename);
+	vcp->vc_filename = filename;
     }
     errno = 0;
     if (!yaml_document_initialize(&document, &version, &tags[0], &tags[0],
